@@ -74,7 +74,7 @@ func (fr *frame) get(key ssa.Value) value {
 
 func isEngineAbort(x interface{}) bool {
 	switch x.(type) {
-	case engineError, pathAbort:
+	case engineError, pathAbort, threadKill, threadCrash:
 		return true
 	case runtime.Error:
 		return true // interpreter bug: never let the target recover it
